@@ -218,7 +218,21 @@ func (fr *Frame) lookup(x *ssa.Lookup, st *State, pc Term) Value {
 
 func (fr *Frame) rangeInit(x *ssa.Range, st *State) Value {
 	u := fr.u
-	key := fmt.Sprintf("iter|%s|%d", fr.fn.Name(), x.Pos())
+	// stable across runs: token.Pos values depend on the order in which files entered the FileSet, and
+	// symbol names influence the solvers' search, so the key uses the ordinal of the range statement in its function instead
+	ord := 0
+	for _, b := range fr.fn.Blocks {
+		for _, ins := range b.Instrs {
+			if r, ok := ins.(*ssa.Range); ok {
+				if r == x {
+					goto found
+				}
+				ord++
+			}
+		}
+	}
+found:
+	key := fmt.Sprintf("iter|%s|r%d", fr.fn.Name(), ord)
 	u.iterOrder = append(u.iterOrder, key)
 	switch mt := x.X.Type().Underlying().(type) {
 	case *types.Map:
